@@ -706,3 +706,336 @@ def replay(check, path):
     if not check.violations and not check.known_seen:
         print('the stored case passes on this tree')
     return check.finish()
+
+
+
+def decode_response(w, app, prot, m, resp_bytes):
+    """independent schema-directed reading of a response: (return value, out header list or None)"""
+    from lxml import etree
+    desc, classes, tns = w.desc, w.classes, w.desc['tns']
+    d = X.method_descriptor(app, m['name'])
+    doc = etree.fromstring(resp_bytes)
+    hdrs, body = X.soap_open(prot, doc)
+    if body is None:
+        raise X.DecodeError('no body element')
+    if body.tag != '{%s}%sResponse' % (tns, m['name']):
+        raise X.DecodeError('body element %s, expected {%s}%sResponse' % (body.tag, tns, m['name']))
+    rets = m['returns']
+    if m['style'] == 'wrapped':
+        keys = list(d.out_message._type_info.keys())
+        fields = [(None, dict(r, name=k)) for r, k in zip(rets, keys)]
+        vals = X.ref_decode_members(desc, classes, None, body, tns, fields=fields, ns_of=lambda _c: tns,
+                                    type_of=lambda _c, f: d.out_message._type_info[f['name']])
+        ret = ('none',) if not rets else (vals[0] if len(rets) == 1 else ('list', vals))
+    elif rets:
+        ret = X.ref_decode(desc, classes, rets[0]['ty'], d.out_message, body, tns, nillable=False)   # a global element, not declared nillable
+    else:
+        ret = ('none',)
+    oh = None
+    if hdrs is not None:
+        if len(hdrs) != len(m['out_header']):
+            raise X.DecodeError('%d header entries for %d declared header classes' % (len(hdrs), len(m['out_header'])))
+        oh = []
+        for c, e in zip(m['out_header'], hdrs):
+            if e.tag != '{%s}%s' % (desc['classes'][c]['ns'], desc['classes'][c]['name']):
+                raise X.DecodeError('header entry %s for class %s' % (e.tag, desc['classes'][c]['name']))
+            oh.append(X.ref_decode(desc, classes, ('ref', c), classes[c], e, tns, nillable=False))
+    return ret, oh
+
+
+def norm_decoded(desc, m, ret):
+    """the decoder's own reading normalised like the expectation (an absent / empty sequence member is None)"""
+    rets = m['returns']
+    if not rets:
+        return ret
+    if m['style'] == 'wrapped':
+        if len(rets) == 1:
+            return X.norm_field_value(desc, rets[0], ret)
+        return ('list', [X.norm_field_value(desc, r, v) for r, v in zip(rets, ret[1])])
+    return X.norm_value(desc, rets[0]['ty'], ret)
+
+
+def expected_out_header(desc, m, call, prot):
+    if prot == 'xml' or call['out_header'] is None or not m['out_header']:
+        return None
+    return [X.norm_value(desc, ('ref', c), v) for c, v in zip(m['out_header'], call['out_header'])]
+
+
+def oracle_response_case(check, w, app, prot, val, m, call, raw, resp, decoder):
+    """the property, client half: the response document denotes exactly the returned value"""
+    want = expected_return(w.desc, m, call)
+    want_h = expected_out_header(w.desc, m, call, prot)
+    try:
+        got, got_h = decode_response(w, app, prot, m, resp)
+        got = norm_decoded(w.desc, m, got)
+        if got_h is not None:
+            got_h = [X.norm_value(w.desc, ('ref', c), v) for c, v in zip(m['out_header'], got_h)]
+        ok = X.eq_value(got, want) and ((got_h is None) == (want_h is None)) and \
+            (want_h is None or (len(got_h) == len(want_h) and all(X.eq_value(a, b) for a, b in zip(got_h, want_h))))
+        err = None
+    except X.DecodeError as e:
+        ok, got, got_h, err = False, None, None, str(e)
+    if not ok:
+        key = 'C01|call|response-%s|%s|%s' % (decoder.split('/')[0], m['style'],
+                                                   ';'.join(shape_of(w.desc, r['ty'], v) or v[0] for r, v in zip(
+                                                       m['returns'], [call['ret']] if len(m['returns']) == 1 else (call['ret'][1] if m['returns'] else [])))[:120])
+        check.fail(key, '%s validator=%s %s [%s]: the function returned %r (out header %r) but the response %s %s' % (
+            prot, val, m['name'], m['style'], want, want_h, resp.decode('utf-8', 'replace')[:500],
+            ('does not follow the schema: ' + err) if err else 'denotes %r (out header %r)' % (got, got_h)),
+            call_replay(w, prot, val, m, call, {'request': raw.decode('utf-8', 'replace'), 'decoder': decoder}))
+        return False
+    return True
+
+
+# ------------------------------------------------------------------ oracle: WsgiApplication + zeep + the Spyne client
+def oracle_clients(check, tier):
+    from spyne.server.wsgi import WsgiApplication
+    rng = check.rng
+    n_worlds = 8 if tier == 'quick' else 60
+    per_method = 2 if tier == 'quick' else 4
+    stats = check.extra.setdefault('oracle', {'wsgi': 0, 'zeep': 0, 'spyne_client': 0, 'zeep_clients': 0})
+    for wi in range(n_worlds):
+        w = World(rng, model_only=False, header_ns_tns=True)
+        for prot in PROTS:
+            for val in VALIDATORS:
+                app, plan = w.app(prot, val)
+                wapp = WsgiApplication(app)
+                zs = None
+                if prot != 'xml':
+                    try:
+                        zs = Z.ZeepSide(app, wapp)
+                        stats['zeep_clients'] += 1
+                    except Exception as e:
+                        hdr = set(c for mm in w.svc['methods'] for c in mm['in_header'] + mm['out_header'])
+                        bare = set(f['ty'][1] for mm in w.svc['methods'] if mm['style'] != 'wrapped'
+                                   for f in (mm['params'] if mm['style'] == 'bare' else []) + mm['returns'] if f['ty'][0] == 'ref')
+                        why = 'header-class-is-also-a-bare-message' if hdr & bare else type(e).__name__
+                        check.fail('C01|wsdl|zeep-load|%s' % why,
+                                   'zeep cannot load the WSDL published for %s: %r' % (prot, e),
+                                   {'kind': 'wsdl', 'universe': X.jsonable(w.desc), 'service': X.jsonable(w.svc), 'protocol': prot, 'validator': val})
+                sc = Z.make_spyne_client(app, wapp, prot)
+                for m in w.svc['methods']:
+                    for _ in range(per_method):
+                        call = gen_call(rng, w.desc, m, header_none=False)
+                        wsgi_case(check, rng, w, app, wapp, plan, prot, val, m, call)
+                        stats['wsgi'] += 1
+                        if zs is not None:
+                            zeep_case(check, w, app, zs, plan, prot, val, m, call)
+                            stats['zeep'] += 1
+                        if m['style'] == 'wrapped':
+                            spyne_client_case(check, w, app, sc, plan, prot, val, m, call)
+                            stats['spyne_client'] += 1
+                        check.count(('oracle', prot, val, m['name'], repr(call)))
+
+
+def wsgi_case(check, rng, w, app, wapp, plan, prot, val, m, call):
+    from lxml import etree
+    doc, _ = request_doc(rng, w.desc, w.classes, app, prot, m, call)
+    raw = etree.tostring(doc, xml_declaration=True, encoding='UTF-8')
+    plan_call(plan, w.desc, w.classes, m, call)
+    try:
+        status, out = Z.wsgi_call(wapp, raw, Z.MIME[prot])
+    except Exception as e:
+        check.fail(call_key('wsgi-raised', prot, val, m, call, w.desc), 'WsgiApplication raised %r for %s' % (e, raw.decode()[:400]),
+                   call_replay(w, prot, val, m, call, {'request': raw.decode('utf-8', 'replace'), 'client': 'ref-encoder/wsgi'}))
+        return
+    log = captured_log(w.desc, w.classes, w.svc, plan)
+    obs = ('return', out) if status.startswith('200') else ('fault', status, out[:300].decode('utf-8', 'replace'))
+    if oracle_server_case(check, w, prot, val, m, call, raw, obs, log, 'ref-encoder/wsgi'):
+        oracle_response_case(check, w, app, prot, val, m, call, raw, out, 'ref-decoder/wsgi')
+
+
+def elem_fields(desc, cid):
+    fs = X.declaring(desc, cid)
+    return [f for _, f in fs if f['kind'] == 'elem'], [f for _, f in fs if f['kind'] == 'attr'], [f for _, f in fs if f['kind'] == 'data']
+
+
+def nil_complex_item(desc, ty, v, in_seq=False):
+    """does the value hold None as an item of a sequence of complex type?  (zeep renders xsd.Nil there as a
+    nil *child*, so such a request cannot be written with zeep)"""
+    if v[0] == 'none':
+        return in_seq                      # (zeep also fails on xsd.Nil items of several simple types)
+    if v[0] == 'list' and ty[0] == 'arr':
+        return any(nil_complex_item(desc, ty[1], x, True) for x in v[1])
+    if v[0] == 'obj':
+        for f, x in zip(X.flat_fields(desc, v[1]), v[2]):
+            if f['kind'] == 'data' and x[0] == 'none':
+                return True                # zeep cannot render simple content without a value
+            if f['kind'] == 'elem' and X.is_multi(f):
+                if x[0] == 'list' and any(nil_complex_item(desc, f['ty'], y, True) for y in x[1]):
+                    return True
+            elif nil_complex_item(desc, f['ty'], x):
+                return True
+    return False
+
+
+def zeep_norm(v):
+    """the identifications zeep itself makes when it parses (none of them Spyne's doing): an empty element is
+    None whatever its type ('' , b'', an empty wrapped array), and xsi:nil on a complex-typed element is ignored"""
+    if v in (('text', ''), ('bytes', b'')):
+        return ('none',)
+    if v[0] == 'list':
+        l = [zeep_norm(x) for x in v[1]]
+        return ('list', l) if l else ('none',)
+    if v[0] == 'obj':
+        # zeep ignores xsi:nil on complex-typed elements: a nil object is read as an object without members
+        l = [zeep_norm(x) for x in v[2]]
+        return ('obj', v[1], l) if any(x != ('none',) for x in l) else ('none',)
+    return v
+
+
+def zeep_case(check, w, app, zs, plan, prot, val, m, call):
+    import zeep.helpers
+    desc, classes = w.desc, w.classes
+    d = X.method_descriptor(app, m['name'])
+    if m['style'] == 'bare' and len(m['params']) == 1:
+        if nil_complex_item(desc, m['params'][0]['ty'], call['args'][0]):
+            return
+    else:
+        for p, a in zip(m['params'], call['args']):
+            if X.is_multi(p) and a[0] == 'list':
+                if any(nil_complex_item(desc, p['ty'], y, True) for y in a[1]):
+                    return
+            elif nil_complex_item(desc, p['ty'], a):
+                return
+    if call['in_header'] is not None and any(nil_complex_item(desc, ('ref', c), v) for c, v in zip(m['in_header'], call['in_header'])):
+        return
+    plan_call(plan, desc, classes, m, call)
+    args, kwargs = [], {}
+    try:
+        if m['style'] == 'bare' and len(m['params']) == 1:
+            p, a = m['params'][0], call['args'][0]
+            if p['ty'][0] == 'leaf':
+                args = [Z.leaf_to_zeep(a)]
+            else:
+                kwargs = zs.to_zeep(desc, classes, p['ty'], d.in_message, a)
+        else:
+            for p, a in zip(m['params'], call['args']):
+                kwargs[p['name']] = zs.field_to_zeep(desc, classes, p, d.in_message._type_info[p['name']], a)
+        if call['in_header'] is not None and m['in_header']:
+            hs = []
+            for c, v in zip(m['in_header'], call['in_header']):
+                el = zs.client.get_element('{%s}%s' % (desc['classes'][c]['ns'], desc['classes'][c]['name']))
+                hs.append(el(**zs.obj_to_zeep(desc, classes, v)))
+            kwargs['_soapheaders'] = hs
+        zs.sent = zs.received = None
+        # raw_response: zeep's own reply handling unwraps single children by heuristics and cannot parse a body
+        # element of simple type; the reply is parsed below with zeep's schema objects instead
+        with zs.client.settings(raw_response=True):
+            getattr(zs.client.service, m['name'])(*args, **kwargs)
+    except Exception as e:
+        check.fail(call_key('zeep-raised', prot, val, m, call, desc),
+                   '%s validator=%s %s [%s]: zeep could not write the call with arguments %r: %r (sent %s; received %s)' % (
+                       prot, val, m['name'], m['style'], call['args'], e, (zs.sent or b'')[:400], (zs.received or b'')[:300]),
+                   call_replay(w, prot, val, m, call, {'client': 'zeep'}))
+        return
+    log = captured_log(desc, classes, w.svc, plan)
+    if not oracle_server_case(check, w, prot, val, m, call, zs.sent or b'', ('return', zs.received), log, 'zeep'):
+        return
+    want = zeep_norm(expected_return(desc, m, call))
+    want_h = expected_out_header(desc, m, call, prot)
+    if want_h is not None:
+        want_h = [zeep_norm(x) for x in want_h]
+    ser = None
+    try:
+        from lxml import etree
+        hdrs, body = X.soap_open(prot, etree.fromstring(zs.received))
+        schema = zs.client.wsdl.types
+        ser = zeep.helpers.serialize_object(schema.get_element(body.tag).parse(body, schema), dict)
+        got = zeep_norm(zeep_result(zs, w, app, m, ser))
+        got_h = None
+        if hdrs is not None:
+            got_h = []
+            for c, h in zip(m['out_header'], hdrs):
+                hv = zeep.helpers.serialize_object(schema.get_element(h.tag).parse(h, schema), dict)
+                got_h.append(zeep_norm(X.norm_value(desc, ('ref', c), zs.from_zeep(desc, classes, ('ref', c), classes[c], hv))))
+            if len(hdrs) != len(m['out_header']):
+                got_h.append(('other', 'header-count', str(len(hdrs))))
+        err = None
+    except Exception as e:
+        got, got_h, err = None, None, repr(e)
+    ok = err is None and X.eq_value(got, want) and ((got_h is None) == (want_h is None)) and \
+        (want_h is None or (len(got_h) == len(want_h) and all(X.eq_value(a, b) for a, b in zip(got_h, want_h))))
+    if not ok:
+        key = 'C01|call|response-zeep|%s|%s' % (m['style'], ';'.join(
+            shape_of(desc, rr['ty'], v) or v[0] for rr, v in zip(m['returns'], [call['ret']] if len(m['returns']) == 1 else (call['ret'][1] if m['returns'] else [])))[:120])
+        check.fail(key, '%s validator=%s %s [%s]: the function returned %r (out header %r); zeep\'s schema %s the response %s [zeep object: %s]' % (
+            prot, val, m['name'], m['style'], want, want_h,
+            ('could not parse (%s)' % err) if err else 'reads %r (out header %r) from' % (got, got_h),
+            (zs.received or b'').decode('utf-8', 'replace')[:500], repr(ser)[:300]),
+            call_replay(w, prot, val, m, call, {'client': 'zeep'}))
+
+
+def zeep_result(zs, w, app, m, body):
+    """the response element as parsed by zeep's schema (serialize_object'ed) -> the neutral return value, normalised"""
+    desc, classes = w.desc, w.classes
+    d = X.method_descriptor(app, m['name'])
+    rets = m['returns']
+    if not rets:
+        return ('none',)
+    if m['style'] == 'wrapped':
+        keys = list(d.out_message._type_info.keys())
+        if not isinstance(body, dict):
+            return ('other', 'zeep-wrapper', repr(body)[:80])
+        vals = [X.norm_field_value(desc, r, zs.field_from_zeep(desc, classes, r, d.out_message._type_info[k], body.get(k)))
+                for r, k in zip(rets, keys)]
+        return vals[0] if len(rets) == 1 else ('list', vals)
+    r = rets[0]
+    return X.norm_value(desc, r['ty'], zs.from_zeep(desc, classes, r['ty'], d.out_message, body))
+
+
+def spyne_client_case(check, w, app, sc, plan, prot, val, m, call):
+    desc, classes = w.desc, w.classes
+    d = X.method_descriptor(app, m['name'])
+    plan_call(plan, desc, classes, m, call)
+    proc = getattr(sc.service, m['name'])
+    proc = proc if not isinstance(proc, type) else proc
+    try:
+        hdr = None
+        if call['in_header'] is not None and m['in_header'] and prot != 'xml':
+            hdr = [X.to_native(desc, classes, v) for v in call['in_header']]
+        sc.set_options(out_header=hdr)
+        proc = getattr(sc.service, m['name'])
+        native_args = []
+        for p, a in zip(m['params'], call['args']):
+            native_args.append(X.to_native(desc, classes, a))
+        r = proc(*native_args)
+    except Exception as e:
+        check.fail(call_key('spyne-client-raised', prot, val, m, call, desc),
+                   '%s validator=%s %s [%s]: the Spyne client could not complete the call with arguments %r: %r (sent %s)' % (
+                       prot, val, m['name'], m['style'], call['args'], e, (getattr(proc, 'sent', b'') or b'')[:400]),
+                   call_replay(w, prot, val, m, call, {'client': 'spyne'}))
+        return
+    log = captured_log(desc, classes, w.svc, plan)
+    c2 = dict(call)
+    if hdr is None:
+        c2['in_header'] = None
+    if not oracle_server_case(check, w, prot, val, m, c2, proc.sent, ('return', proc.received), log, 'spyne-client'):
+        return
+    rets = m['returns']
+    keys = list(d.out_message._type_info.keys())
+    if not rets:
+        got = ('none',)
+    elif len(rets) == 1:
+        got = X.norm_field_value(desc, rets[0], X.field_from_native(desc, classes, rets[0], r))
+    else:
+        got = ('list', [X.norm_field_value(desc, rr, X.field_from_native(desc, classes, rr, getattr(r, k, None))) for rr, k in zip(rets, keys)])
+    want = expected_return(desc, m, call)
+    ih = proc.ctx.in_header
+    want_h = expected_out_header(desc, m, call, prot)
+    if ih is None:
+        got_h = None
+    elif len(m['out_header']) == 1:
+        got_h = [X.norm_value(desc, ('ref', m['out_header'][0]), X.from_native(desc, classes, ('ref', m['out_header'][0]), ih))]
+    else:
+        got_h = [X.norm_value(desc, ('ref', c), X.from_native(desc, classes, ('ref', c), x)) for c, x in zip(m['out_header'], ih)]
+    if want_h == [('none',)]:
+        want_h = None
+    ok = X.eq_value(got, want) and ((got_h is None) == (want_h is None)) and \
+        (want_h is None or (len(got_h) == len(want_h) and all(X.eq_value(a, b) for a, b in zip(got_h, want_h))))
+    if not ok:
+        key = 'C01|call|response-spyne-client|%s|%s' % (m['style'], ';'.join(
+            shape_of(desc, rr['ty'], v) or v[0] for rr, v in zip(rets, [call['ret']] if len(rets) == 1 else (call['ret'][1] if rets else [])))[:120])
+        check.fail(key, '%s validator=%s %s: the function returned %r (out header %r); the Spyne client returned %r (in_header %r) from %s' % (
+            prot, val, m['name'], want, want_h, got, got_h, proc.received.decode('utf-8', 'replace')[:500]),
+            call_replay(w, prot, val, m, call, {'client': 'spyne'}))
